@@ -1,4 +1,5 @@
 import CffiVerif.Proofs.ConstExpr
+import CffiVerif.Proofs.DefineConst
 
 /-!
 C09 — integer constant expressions in a cdef evaluate as C evaluates them.
@@ -48,113 +49,22 @@ theorem literal_agrees (l : IntLit) (n : Nat) (h : l.value? = some n) :
   simp only [CExpr.toModel, ConstExpr.eval]
   exact parseConst_render l n h
 
+/-- `#define NAME literal` and `static const T NAME = literal;` (both go through `_r_int_literal`
+and `_add_integer_constant`): every well-formed decimal, octal or hexadecimal C literal, with any
+valid suffix and an optional leading `-`, is accepted and bound to its C value.  (Binary
+literals, a GNU extension, match the regular expression but are then rejected: `CDefError`.) -/
+theorem define_literal_agrees (l : IntLit) (n : Nat) (h : l.value? = some n) (hbin : l.base ≠ .bin) :
+    literalConstant l.render = some (.ok (n : Int)) ∧
+    literalConstant ('-' :: l.render) = some (.ok (-(n : Int))) := by
+  have hm := matchIntLiteral_render l n h hbin
+  have ha := addIntegerConstant_render l n h hbin
+  simp [literalConstant, hm.1, hm.2, ha.1, ha.2]
+
 /-- Plain and simply-escaped character constants have their C value. -/
 theorem char_agrees (c : Char) (t : CType) (v : Int) :
     (plainChar c = some (t, v) → parseConst ['\'', c, '\''] = .ok v) ∧
-    (escapeChar c = some (t, v) → parseConst ['\'', '\\', c, '\''] = .ok v) := by
-  constructor
-  · intro h
-    unfold plainChar at h
-    split at h
-    · simp only [Option.some.injEq, Prod.mk.injEq] at h
-      obtain ⟨_, rfl⟩ := h
-      simp [parseConst]
-    · cases h
-  · intro h
-    rw [escape_eq] at h
-    cases hse : simpleEscape c with
-    | none => simp [hse] at h
-    | some n =>
-      simp only [hse] at h
-      obtain ⟨_, rfl⟩ := h
-      simp [parseConst, hse]
-
-/-- cffi's table of names agrees with C's scope on the names C knows. -/
-def EnvAgree (cenv : CConstExpr.Env) (penv : ConstExpr.Env) : Prop :=
-  ∀ n t v, cenv n = some (t, v) → penv n = some v
-
-/-- Values bound in C's scope are representable in their types. -/
-def EnvOk (cenv : CConstExpr.Env) : Prop :=
-  ∀ n t v, cenv n = some (t, v) → t.inRange v = true
-
-theorem eval_agrees_aux (cenv : CConstExpr.Env) (penv : ConstExpr.Env)
-    (hag : EnvAgree cenv penv) (hok : EnvOk cenv) (e : CExpr) :
-    allSigned cenv e = true → ∀ t v, CConstExpr.eval cenv e = some (t, v) →
-      ConstExpr.eval penv e.toModel = .ok v ∧ t.signed = true ∧ t.inRange v = true := by
-  induction e with
-  | int l =>
-    intro hs t v h
-    have hsg : t.signed = true := by simpa [allSigned, sgn, h] using hs
-    simp only [CConstExpr.eval] at h
-    obtain ⟨n, hv, rfl, hr⟩ := typed_some h
-    exact ⟨literal_agrees l n hv, hsg, hr⟩
-  | chr c =>
-    intro hs t v h
-    have hsg : t.signed = true := by simpa [allSigned, sgn, h] using hs
-    simp only [CConstExpr.eval] at h
-    refine ⟨(char_agrees c t v).1 h, hsg, ?_⟩
-    unfold plainChar at h
-    split at h
-    · simp only [Option.some.injEq, Prod.mk.injEq] at h
-      obtain ⟨rfl, rfl⟩ := h
-      simp [CType.inRange, CType.minVal, CType.maxVal, CType.int, CType.width]; omega
-    · cases h
-  | esc c =>
-    intro hs t v h
-    have hsg : t.signed = true := by simpa [allSigned, sgn, h] using hs
-    simp only [CConstExpr.eval] at h
-    refine ⟨(char_agrees c t v).2 h, hsg, ?_⟩
-    rw [escape_eq] at h
-    cases hse : simpleEscape c with
-    | none => simp [hse] at h
-    | some n =>
-      simp only [hse] at h
-      obtain ⟨rfl, rfl⟩ := h
-      have := simpleEscape_le c n hse
-      simp [CType.inRange, CType.minVal, CType.maxVal, CType.int, CType.width]; omega
-  | pos e ih =>
-    intro hs t v h
-    simp only [allSigned, Bool.and_eq_true] at hs
-    simp only [CConstExpr.eval] at h
-    exact ih hs.1 t v h
-  | neg e ih =>
-    intro hs t v h
-    simp only [allSigned, Bool.and_eq_true] at hs
-    simp only [CConstExpr.eval] at h
-    cases he : CConstExpr.eval cenv e with
-    | none => simp [he] at h
-    | some x =>
-      obtain ⟨t1, v1⟩ := x
-      simp only [he] at h
-      obtain ⟨hm, hs1, _⟩ := ih hs.1 t1 v1 he
-      obtain ⟨rfl, rfl, hr⟩ := arith_signed' hs1 h
-      refine ⟨?_, hs1, hr⟩
-      simp [CExpr.toModel, ConstExpr.eval, hm, bind, Except.bind, pure, Except.pure]
-  | ref n =>
-    intro hs t v h
-    have hsg : t.signed = true := by simpa [allSigned, sgn, h] using hs
-    simp only [CConstExpr.eval] at h
-    refine ⟨?_, hsg, hok n t v h⟩
-    simp [CExpr.toModel, ConstExpr.eval, hag n t v h]
-  | bin op l r ihl ihr =>
-    intro hs t v h
-    simp only [allSigned, Bool.and_eq_true] at hs
-    simp only [CConstExpr.eval] at h
-    cases hl : CConstExpr.eval cenv l with
-    | none => simp [hl] at h
-    | some x =>
-      cases hr : CConstExpr.eval cenv r with
-      | none => simp [hl, hr] at h
-      | some y =>
-        obtain ⟨t1, v1⟩ := x
-        obtain ⟨t2, v2⟩ := y
-        simp only [hl, hr] at h
-        obtain ⟨m1, s1, r1⟩ := ihl hs.1.1 t1 v1 hl
-        obtain ⟨m2, s2, r2⟩ := ihr hs.1.2 t2 v2 hr
-        have hb := binop_agrees op s1 s2 r1 r2 h
-        have hsr := binop_signed_inRange op s1 s2 h
-        refine ⟨?_, hsr.1, hsr.2⟩
-        simp [CExpr.toModel, ConstExpr.eval, m1, m2, bind, Except.bind, hb]
+    (escapeChar c = some (t, v) → parseConst ['\'', '\\', c, '\''] = .ok v) :=
+  char_agrees_aux c t v
 
 /-- **C09, restricted to signed-typed operands.**  For every expression tree (any depth) over the
 property's grammar in which every operand and intermediate result has a signed C type: if C
@@ -205,6 +115,10 @@ example : EnvOk CConstExpr.Env.empty := by intro n t v h; change none = some (t,
 example : ConstExpr.eval ConstExpr.Env.empty exExpr.toModel = .ok 28 :=
   eval_agrees_partial CConstExpr.Env.empty ConstExpr.Env.empty (by intro n t v h; change none = some (t, v) at h; cases h)
     (by intro n t v h; change none = some (t, v) at h; cases h) exExpr (by decide) CType.long _ (by decide)
+-- `define_literal_agrees`: `#define N 0X1FuL` binds 31, `#define N -0X1FuL` binds -31; a binary literal is refused
+example : literalConstant "0X1FuL".toList = some (.ok 31) ∧ literalConstant "-0X1FuL".toList = some (.ok (-31)) :=
+  define_literal_agrees ⟨.hex, true, ['1', 'F'], ['u', 'L']⟩ 31 (by decide) (by decide)
+example : literalConstant ['0', 'b', '1', '0', '1'] = some (.error .cdef) := by decide
 -- the hypotheses of `c_div_is_tdiv`: negative dividend, the rounding that differs from Python's `//`
 example : cDiv (-7) 2 = .ok (-3) := c_div_is_tdiv (-7) 2 (by decide)
 example : applyBin .mod (-7) 2 = .ok (-1) := c_mod_is_tmod (-7) 2 (by decide)
